@@ -368,8 +368,10 @@ preprocess_file(const Filename &filename) {
   if (it != _parsed_files.end() && it->_pragma_once) {
     // But mark it as local.
     it->_source = CPPFile::S_local;
+    VERIF_EVENT("{\"e\":\"TopFile\",\"name\":" << VERIF_Q(filename.get_fullpath()) << ",\"path\":" << VERIF_Q(canonical.get_fullpath()) << ",\"once\":1}");
     return true;
   }
+  VERIF_EVENT("{\"e\":\"TopFile\",\"name\":" << VERIF_Q(filename.get_fullpath()) << ",\"path\":" << VERIF_Q(canonical.get_fullpath()) << ",\"once\":0}");
 
   if (!init_cpp(file)) {
     std::cerr << "Unable to read " << filename << "\n";
@@ -1933,10 +1935,12 @@ handle_include_directive(const string &args, const YYLTYPE &loc) {
     }
 
     CPPFile file(filename, filename_as_referenced, source);
+    VERIF_EVENT("{\"e\":\"Include\",\"name\":" << VERIF_Q(filename_as_referenced.get_fullpath()) << ",\"angle\":" << (angle_quotes ? 1 : 0) << ",\"path\":" << VERIF_Q(filename.get_fullpath()) << ",\"src\":" << (int)source << ",\"from\":" << VERIF_Q(get_file()._filename.get_fullpath()) << "}");
 
     // Don't include it if we included it before and it had #pragma once.
     ParsedFiles::const_iterator it = _parsed_files.find(file);
     if (it != _parsed_files.end() && it->_pragma_once) {
+      VERIF_EVENT("{\"e\":\"IncludeOnce\",\"path\":" << VERIF_Q(filename.get_fullpath()) << "}");
       return;
     }
 
@@ -1944,6 +1948,7 @@ handle_include_directive(const string &args, const YYLTYPE &loc) {
       warning("Unable to read " + filename.get_fullpath(), loc);
     }
   } else {
+    VERIF_EVENT("{\"e\":\"Include\",\"name\":" << VERIF_Q(filename_as_referenced.get_fullpath()) << ",\"angle\":" << (angle_quotes ? 1 : 0) << ",\"path\":\"\",\"src\":-1,\"from\":" << VERIF_Q(get_file()._filename.get_fullpath()) << "}");
     warning("Cannot find " + filename.get_fullpath(), loc);
   }
 }
@@ -1957,6 +1962,7 @@ handle_pragma_directive(const string &args, const YYLTYPE &loc) {
     ParsedFiles::iterator it = _parsed_files.find(loc.file);
     assert(it != _parsed_files.end());
     it->_pragma_once = true;
+    VERIF_EVENT("{\"e\":\"PragmaOnce\",\"path\":" << VERIF_Q(it->_filename.get_fullpath()) << "}");
   }
 
   char macro[64];
